@@ -367,6 +367,7 @@ impl<K: CacheKey + 'static> DiskCache<K> {
                 .open(&temp_path)
                 .map_err(CacheError::Io)?;
             #[cfg(feature = "verif-hooks")] crate::verif_hooks::crash_point("disk.write.after_create", Some(&temp_path));
+            #[cfg(feature = "verif-hooks")] crate::verif_hooks::sched_point("disk.write_file.temp-opened");
 
             file.write_all(data).map_err(CacheError::Io)?;
             #[cfg(feature = "verif-hooks")] crate::verif_hooks::crash_point("disk.write.after_write", Some(&temp_path));
@@ -386,6 +387,7 @@ impl<K: CacheKey + 'static> DiskCache<K> {
                 #[cfg(feature = "verif-hooks")] crate::verif_hooks::crash_point("disk.write.after_sync", None);
             }
         }
+        #[cfg(feature = "verif-hooks")] crate::verif_hooks::sched_point("disk.write_file.temp-written");
 
         // Atomic rename
         fs::rename(&temp_path, path).map_err(CacheError::Io)?;
@@ -521,6 +523,7 @@ impl<K: CacheKey + 'static> AsyncCache<K> for DiskCache<K> {
                 .map_err(|_| CacheError::LockTimeout("index read lock".to_string()))?;
             index.get(key).cloned()
         };
+        #[cfg(feature = "verif-hooks")] crate::verif_hooks::sched_point("disk.get.index-read");
 
         if let Some(entry) = entry_info {
             if entry.is_expired() {
@@ -546,6 +549,7 @@ impl<K: CacheKey + 'static> AsyncCache<K> for DiskCache<K> {
             // Read file content
             match self.read_file(&entry.file_path).await {
                 Ok(data) => {
+                    #[cfg(feature = "verif-hooks")] crate::verif_hooks::sched_point("disk.get.file-read");
                     // Update access time
                     if let Ok(mut index) = self.index.write()
                         && let Some(entry) = index.get_mut(key)
@@ -557,6 +561,7 @@ impl<K: CacheKey + 'static> AsyncCache<K> for DiskCache<K> {
                     Ok(Some(data))
                 }
                 Err(e) => {
+                    #[cfg(feature = "verif-hooks")] crate::verif_hooks::sched_point("disk.get.file-read-failed");
                     // File read failed - remove from index (if another task has not
                     // done so already; the counters follow what was actually removed)
                     if let Ok(mut index) = self.index.write()
@@ -575,6 +580,7 @@ impl<K: CacheKey + 'static> AsyncCache<K> for DiskCache<K> {
             // Not in index - try to find file on disk as fallback
             let file_path = self.get_file_path(key)?;
             if file_path.exists() {
+                #[cfg(feature = "verif-hooks")] crate::verif_hooks::sched_point("disk.get.fallback-file-exists");
                 // Found file on disk - try to read it and add to index
                 match self.read_file(&file_path).await {
                     Ok(data) => {
@@ -591,6 +597,7 @@ impl<K: CacheKey + 'static> AsyncCache<K> for DiskCache<K> {
                             last_accessed: SystemTime::now(),
                             access_count: 1,
                         };
+                        #[cfg(feature = "verif-hooks")] crate::verif_hooks::sched_point("disk.get.fallback-file-read");
 
                         // A put may have indexed the key (with its expiry) since the
                         // lookup above: keep that entry, and count the key only once.
@@ -631,6 +638,7 @@ impl<K: CacheKey + 'static> AsyncCache<K> for DiskCache<K> {
 
         // Write data to disk
         self.write_file(&file_path, &value).await?;
+        #[cfg(feature = "verif-hooks")] crate::verif_hooks::sched_point("disk.put_with_ttl.file-written");
 
         // Update index
         {
@@ -729,8 +737,10 @@ impl<K: CacheKey + 'static> AsyncCache<K> for DiskCache<K> {
 
         index.clear();
         drop(index); // Release lock early to reduce contention
+        #[cfg(feature = "verif-hooks")] crate::verif_hooks::sched_point("disk.clear.index-cleared");
 
         self.metrics.reset();
+        #[cfg(feature = "verif-hooks")] crate::verif_hooks::sched_point("disk.clear.counters-reset");
 
         // Also clean up any remaining files and subdirectories
         self.clear_directory_recursive(&self.config.cache_dir)?;
